@@ -18,16 +18,18 @@ import Chrono.Extracted.WdConv
 
 namespace Chrono.M
 
+/-- the variant with declared discriminant `i` -/
+def Weekday.ofDisc (i : Nat) : Option Weekday := Weekday.all[i]?
+def Month.ofDisc (i : Nat) : Option Month := Month.all[i]?
+
+namespace Conv
+
 /-- Rust `match n { k₁ => Some(v₁), …, _ => dflt }` on integer literal patterns: the first arm whose
 literal equals `n`, else the wildcard arm -/
 def matchArms (arms : List (Int × Nat)) (dflt : Option Nat) (n : Int) : Option Nat :=
   match arms with
   | [] => dflt
   | (k, v) :: rest => if n = k then some v else matchArms rest dflt n
-
-/-- the variant with declared discriminant `i` -/
-def Weekday.ofDisc (i : Nat) : Option Weekday := Weekday.all[i]?
-def Month.ofDisc (i : Nat) : Option Month := Month.all[i]?
 
 /-! ### num_traits 0.2.19 `FromPrimitive`: the provided (default) methods -/
 
@@ -60,8 +62,6 @@ def from_u32 (n : Int) : Option α := I.from_u64 n
 def from_usize (n : Int) : Option α := (NumTraits.to_u64 n).bind I.from_u64
 def from_u128 (n : Int) : Option α := (NumTraits.to_u64 n).bind I.from_u64
 end FromPrimitive
-
-namespace Conv
 
 /-- the integer types `FromPrimitive` has a method for -/
 inductive PrimTy where
